@@ -329,11 +329,14 @@ class CTMCCredit(CTMCGrid):
         l, r = compute_truncation(model=model, h=h)
         if (
             isinstance(level_a, float)
-            and level_a < l
+            and not l < level_a < -h
             or isinstance(level_a, list)
-            and any(a < l for a in level_a)
+            and any(not l < a < -h for a in level_a)
         ):
-            raise ValueError("level a smaller than the last left point in the grid")
+            # on the boundaries the two states around the level coincide or overlap their neighbours
+            raise ValueError(
+                "level a expected strictly between the last left point in the grid and -h"
+            )
 
         if model.dimension_model() == 1:
             eps = min(abs(l - level_a) / 2, abs(level_a + h) / 2)
